@@ -1,7 +1,9 @@
 import os
 from lib import verif
 
-VARIANTS = [("p3t2", 3, 2, "Trace_Relayer_rand.cfg"), ("p3t0", 3, 0, "Trace_Relayer_p3t0.cfg"), ("p2t5", 2, 5, "Trace_Relayer_p2t5.cfg")]
+VARIANTS = [("p3t2", 3, 2, "Trace_Relayer_rand.cfg"), ("p3t0", 3, 0, "Trace_Relayer_p3t0.cfg"), ("p2t5", 2, 5, "Trace_Relayer_p2t5.cfg"),
+            # electing period well above the accept timeout: the window in which a proposer may still accept implicitly after the deadline block
+            ("p5t2", 5, 2, "Trace_Relayer_p5t2.cfg")]
 
 
 def jobs(seed, per_job, depth, njobs, period, timeout, tag):
